@@ -37,7 +37,7 @@ ASSUMPTIONS = ['processes are single-threaded; every system call is atomic; only
                'in a fault-free run where all processes trash distinct existing entries no process may fail (attributed to C04 by its quantifier); '
                'a process that met an injected error may fail, the others may not, and the pair invariant holds for all']
 PROBES = ['schedules', 'context-switches', 'switch-between-reserve-and-rename', 'both-created-trash-dir', 'eexist-retry', 'crowded-random-suffix',
-          'sequential-histories', 'over-100-same-name', 'orphan-dangling-symlink', 'orphan-dir', 'stray-info', 'uniform', 'pct', 'sweep', 'sweepfault', 'three-procs',
+          'sequential-histories', 'over-100-same-name', 'orphan-dangling-symlink', 'orphan-dir', 'stray-info', 'uniform', 'pct', 'sweep', 'sweepfault', 'three-procs', 'cross-device-puts-next-to-decorated-names',
           'fault-in-one-process', 'fault-fired', 'faulted-process-reported-failure']
 TECHNIQUE = 'deterministic simulation of concurrent processes: baton-passing threads under a seeded scheduler (uniform / PCT / sweep), invariant on pairs after all exit'
 LEVEL_TEXT = ('seeded search over interleavings of the real trash-put processes\' file-system operations; each schedule is one repeatable '
@@ -45,7 +45,38 @@ LEVEL_TEXT = ('seeded search over interleavings of the real trash-put processes\
 LEVEL_NOTE = 'trusted: the scheduler (only the baton holder runs; every vkernel op is a pre-emption point), the C01 frame oracle'
 
 
+DECOR = ['%s.part', '%s.tmp', '%s~', '%s.partial', '%s.bak', '%s.new', '%s.copy', '.%s.swp', '%s.trashinfo', '%s_1', '%s.1', '#%s#']
+
+
+def gen_xdev(rng):
+    """puts that reach the home trash through the cross-device fallback (copy + delete), one after the other, into a trash that
+    already holds entries under 'decorated' variants of the same names (N.part, N.tmp, N~, .N.swp, N_1 ...): whatever
+    staging the move uses, only the name it reserved (info/N.trashinfo) is its own"""
+    L = G.make_layout(rng, nvol=1, xdg=rng.choice(['unset', 'set']), home_mode='root', uid=1000, trash_states=['absent'], alt_states=['absent'])
+    steps = L['steps']
+    home, uid, env = L['home'], L['uid'], dict(L['env'])
+    ht = G.home_trash_of(env)
+    v = L['vols'][0]
+    steps[:] = [st_ for st_ in steps if not (st_[1].endswith('/.Trash') or '/.Trash-' in st_[1] or '/.Trash/' in st_[1])]
+    steps.append(['f', v + '/.Trash-%d' % uid, 'blocker', 0o600])
+    env['TRASH_ENABLE_HOME_FALLBACK'] = '1'
+    names = rng.sample(['movie.mkv', 'proj', 'foo', 'a b', 'notes.txt'], rng.randint(1, 2))
+    procs = []
+    k = 0
+    for nm in names:
+        for pat in rng.sample(DECOR, rng.randint(1, 4)):
+            k += 1
+            G.add_trashed(steps, ht, pat % nm, TG.pct(home + '/old/' + (pat % nm)), '2019-0%d-01T00:00:00' % (k % 9 + 1), rng.choice(['file', 'dir']), tag='dec%d' % k)
+        p = L['work'][v] + '/' + nm
+        G.make_entry(rng, p, rng.choice(['file', 'dir', 'deepdir', 'empty']), steps, v + '/aux')
+        procs.append({'argv': ['trash-put', '--home-fallback', '--', p], 'env': env, 'cwd': '/', 'uid': uid})
+    return {'world': {'mounts': L['mounts'], 'steps': steps}, 'dirsalt': rng.randrange(1 << 30), 'mode': 'seq', 'procs': procs,
+            'sched': {}, 'note': {'state': 'xdev-decorated', 'names': names}}
+
+
 def gen(rng):
+    if rng.random() < 0.08:
+        return gen_xdev(rng)
     mode = rng.choice(['conc', 'conc', 'conc', 'conc', 'crowded', 'seq'])
     L = G.make_layout(rng, nvol=0, xdg=rng.choice(['unset', 'set']), home_mode='root', uid=1000)
     steps = L['steps']
@@ -180,6 +211,8 @@ def check(sim, case, st):
         if not res and npairs != npairs0 + ok:
             res.append(('C04/seq/pair-count', 'after %d successful puts of the same name the trash holds %d pairs more (expected %d)' % (ok, npairs - npairs0, ok)))
         st.distinct.add(('seq', len(procs)))
+        if case.get('note', {}).get('state') == 'xdev-decorated':
+            st.probes['cross-device-puts-next-to-decorated-names'] += 1
         return _dedup(res)
     # ---- concurrent ---------------------------------------------------------
     before = sim.snap()
